@@ -334,18 +334,18 @@ def clauses(tier):
         Clause(
             "preemph_recurrence", check_preemph,
             "non-trivial = length >= 2, coeff != 0 and a non-zero predecessor sample; distinct by the whole case",
-            preemph_cases, quick=2500, thorough=60000,
+            preemph_cases, quick=5000, thorough=150000,
             enumerate=preemph_enum, enum_name="preemph_grid_n0-8",
         ),
         Clause(
             "dither_relations", check_dither,
             "non-trivial = length >= 1 and coeff > 0; relations: linear in coeff, signal-independent, identity at 0, "
             "reproducible under numpy.random.seed, in_place equivalent, other seed => other noise (n >= 8)",
-            dither_cases, quick=1500, thorough=40000,
+            dither_cases, quick=3000, thorough=90000,
         ),
         Clause(
             "dither_statistics", check_dither_stats,
             "200000 draws per case; non-trivial = coeff > 0; mean, std, correlation with the signal and per-half std within 6 sigma",
-            dither_stats_cases, quick=60, thorough=1600, shards=8,
+            dither_stats_cases, quick=120, thorough=3600, shards=8,
         ),
     ]
